@@ -1,4 +1,4 @@
-// GENERATED on every run by vlib/extract.py from /tmp/seedcheck-373 -- do not edit
+// GENERATED on every run by vlib/extract.py from /tmp/rp -- do not edit
 #![allow(unused_imports, unused_variables, unused_mut, dead_code, unused_parens, unused_braces, non_snake_case)]
 use vstd::prelude::*;
 
@@ -342,8 +342,8 @@ pub fn copy_as_lowercase(s: &str) -> (r: SmallString)
                 state = State2::MixedAscii;
             } else {
                 state = State2::MixedUnicode;
+                break;
             }
-            break;
         }
     }
     
